@@ -40,6 +40,7 @@ Cmds ==
   \cup {[op |-> "GETEX", k |-> k, mode |-> m, ms |-> ms] : k \in K, m \in {"none", "persist", "rel"}, ms \in {2, 0}}
   \cup {[op |-> "SPOP", k |-> k, n |-> n] : k \in K, n \in {-1, 0, 2}}
   \cup {[op |-> "INCRBYFLOAT", k |-> k, q |-> q] : k \in K, q \in {2, -5}}
+  \cup {[op |-> "SORT", k |-> k, store |-> d] : k \in K, d \in {"", "b"}}
   \cup {[op |-> "RANDOMKEY", kb |-> <<<<"a", <<97>>>>, <<"b", <<98>>>>>>]}
 
 Init == st = [k \in {} |-> 0] /\ now = 0 /\ last = [c |-> [op |-> "PING", has |-> FALSE, v |-> <<>>], r |-> OK, changed |-> FALSE] /\ steps = 0
